@@ -225,9 +225,9 @@ def routeInput (nRow nCol nnz : Nat) (forceBipartite : Bool) : Except PyErr (Boo
     let bip := forceBipartite || nRow != nCol
     .ok (bip, if bip then nRow + nCol else nRow)
 
-/-- `Louvain.fit(input_matrix, force_bipartite)` from the shape of the input: routing, the check of the
-    `modularity` option in `_pre_processing`, then the loop and the post-processing.  (The numerics of
-    `_pre_processing` — node weights, normalisation — are not modelled; they need a positive total weight.) -/
+/-- `Louvain.fit(input_matrix, force_bipartite)` from the shape of the input: routing, the refusals of
+    `_pre_processing` (`preOK = false`: unknown `modularity`, or node weights refused by `get_probs` — see
+    `preProcessingOK`), then the loop and the post-processing. -/
 def louvainEstimator (argsort : List Int → List Nat) (kernel : Nat → Nat → List Int × Bool) (nAgg : Int)
     (fuel nRow nCol nnz : Nat) (forceBipartite modularityKnown : Bool) (index : List Nat)
     (sortClusters shuffle : Bool) : Except PyErr (Option (Fitted × Nat)) :=
@@ -349,6 +349,56 @@ def secondary (a : SpMat) (nCol : Nat) (f : Fitted) (bipartite returnProbs retur
     match f.labelsRow, f.labelsCol with
     | some lr, some lc => secondaryBip a nCol lr lc returnProbs returnAggregate
     | _, _ => .error .typeError
+
+/-! ### the refusals of `Louvain._pre_processing` -/
+
+inductive ModKind | dugue | newman | potts
+deriving DecidableEq, Repr
+
+/-- `self.modularity` (lower-cased by `__init__`) as one of the three known kinds -/
+def modKind? (s : String) : Option ModKind :=
+  if s == "dugue" then some .dugue else if s == "newman" then some .newman
+  else if s == "potts" then some .potts else none
+
+/-- `check_weights`: node weights must be non-negative with positive sum -/
+def weightsOK (v : List Rat) : Bool := v.all (fun x => decide (0 ≤ x)) && decide (0 < sumR v)
+
+/-- row sums (`adjacency.dot(ones)`) and column sums (`adjacency.T.dot(ones)`) of the input -/
+def rowSums (a : SpMat) : List Rat := a.map fun row => sumR (row.map (·.2))
+def colSums (a : SpMat) (nCol : Nat) : List Rat := rowSums (transposeSp a nCol)
+
+/-- `get_probs('degree', adjacency)` (and of `adjacency.T` for Dugué) accept the node weights.
+    newman: the degrees of the adjacency — of the block matrix `[[0,B],[Bᵀ,0]]` for a bipartite graph, i.e. row sums
+    then column sums; dugue: out-weights and in-weights (for a bipartite graph the block `[[0,B],[0,0]]`: row sums
+    followed by zeros, zeros followed by column sums); potts: uniform weights, never refused. -/
+def preWeightsOK (a : SpMat) (nCol : Nat) (bipartite : Bool) (kind : ModKind) : Bool :=
+  match kind with
+  | .potts => true
+  | .newman => if bipartite then weightsOK (rowSums a ++ colSums a nCol) else weightsOK (rowSums a)
+  | .dugue => weightsOK (rowSums a) && weightsOK (colSums a nCol)
+
+/-- `_pre_processing` does not raise: known modularity and accepted node weights -/
+def preProcessingOK (a : SpMat) (nCol : Nat) (bipartite : Bool) (modularity : String) : Bool :=
+  match modKind? modularity with
+  | none => false
+  | some k => preWeightsOK a nCol bipartite k
+
+/-- number of stored entries -/
+def nnzOf (a : SpMat) : Nat := (a.map List.length).foldl (· + ·) 0
+
+/-- `Louvain.fit` from the input matrix itself -/
+def louvainOnMatrix (argsort : List Int → List Nat) (kernel : Nat → Nat → List Int × Bool) (nAgg : Int)
+    (fuel : Nat) (a : SpMat) (nCol : Nat) (forceBipartite : Bool) (modularity : String) (index : List Nat)
+    (sortClusters shuffle : Bool) : Except PyErr (Option (Fitted × Nat)) :=
+  louvainEstimator argsort kernel nAgg fuel a.length nCol (nnzOf a) forceBipartite
+    (preProcessingOK a nCol (forceBipartite || a.length != nCol) modularity) index sortClusters shuffle
+
+def leidenOnMatrix (argsort : List Int → List Nat) (kernel : Nat → List Nat → List Int × Bool)
+    (refine : Nat → List Nat → List Int) (nAgg : Int)
+    (fuel : Nat) (a : SpMat) (nCol : Nat) (forceBipartite : Bool) (modularity : String) (index : List Nat)
+    (sortClusters shuffle : Bool) : Except PyErr (Option (Fitted × Nat)) :=
+  leidenEstimator argsort kernel refine nAgg fuel a.length nCol (nnzOf a) forceBipartite
+    (preProcessingOK a nCol (forceBipartite || a.length != nCol) modularity) index sortClusters shuffle
 
 /-! ### `postprocess.aggregate_graph` -/
 
@@ -520,5 +570,58 @@ def kcentersFitFull (nClusters nInit maxIter : Int) (bipartite : Bool) (nRow nCo
       match kcentersFit nClusters nInit bipartite nRow nCol pos (attempts.map attemptRun) idxMax with
       | .error e => .error e
       | .ok k => .ok (k, (attempts.map attemptCalls).foldl (· + ·) 0)
+
+/-! ### the assignment of `KCenters`: the read-out of `PageRankClassifier` (`RankClassifier.fit`) -/
+
+/-- `np.argmax(row)`: the first position of the maximum (0 for an empty row) -/
+def argmaxFirst : List Rat → Nat
+  | [] => 0
+  | x :: xs =>
+    let rec go (best : Rat) (bestIdx idx : Nat) : List Rat → Nat
+      | [] => bestIdx
+      | y :: ys => if best < y then go y idx (idx + 1) ys else go best bestIdx (idx + 1) ys
+    go x 0 1 xs
+
+/-- the classes `check_labels` finds for the seeds `{center: label for label, center in enumerate(centers)}`:
+    a later occurrence of a centre overwrites the label of an earlier one; `np.unique` sorts them -/
+def seedLabels (centers : List Nat) : List Nat :=
+  (List.range centers.length).filter fun t => !((centers.drop (t + 1)).contains (centers.getD t 0))
+
+/-- `RankClassifier.fit(...).labels_` from the matrix of scores (one row per node, one column per class):
+    `labels_unique[np.argmax(scores, axis=1)]`; fewer than two classes are refused by `check_labels` -/
+def rankReadout (centers : List Nat) (scores : List (List Rat)) : Except PyErr (List Nat) :=
+  if (seedLabels centers).length < 2 then .error .valueError
+  else .ok (scores.map fun row => (seedLabels centers).getD (argmaxFirst row) 0)
+
+/-- the labels of one assignment, `[]` standing for the refusal (handled by `kcentersFitScores`) -/
+def classifyOf (scores : Nat → List Nat → List (List Rat)) (i : Nat) (centers : List Nat) : List Nat :=
+  match rankReadout centers (scores i centers) with
+  | .ok l => l
+  | .error _ => []
+
+/-- `KCenters.fit` with the assignment modelled: `scores i centers` stands for the (normalised) PageRank scores of
+    restart `i`, an `n × n_clusters` matrix; the labels are read out of it as `PageRankClassifier` does. -/
+def kcentersFitScores (nClusters nInit maxIter : Int) (bipartite : Bool) (nRow nCol : Nat) (pos : CenterPos)
+    (chooseOf : Nat → Nat → List Nat → Nat) (scores : Nat → List Nat → List (List Rat)) (idxMax : Nat) :
+    Except PyErr (KFitted × Nat) :=
+  match kcentersChecks nClusters nInit bipartite nRow nCol pos with
+  | .error e => .error e
+  | .ok mask =>
+    if decide (1 ≤ maxIter) && (List.range nInit.toNat).any (fun i =>
+        decide ((seedLabels (initCenters (chooseOf i) mask nClusters.toNat)).length < 2)) then .error .valueError
+    else kcentersFitFull nClusters nInit maxIter bipartite nRow nCol pos chooseOf (classifyOf scores) idxMax
+
+/-- `KCenters.fit(input_matrix, force_bipartite)` from the shape of the input: `directed=True` symmetrises the input
+    first (`input_matrix + input_matrix.T`: a ValueError unless square), then `get_adjacency` routes it. -/
+def kcentersEstimator (nClusters nInit maxIter : Int) (directed forceBipartite : Bool) (nRow nCol nnz : Nat)
+    (pos : CenterPos) (chooseOf : Nat → Nat → List Nat → Nat) (scores : Nat → List Nat → List (List Rat))
+    (idxMax : Nat) : Except PyErr (KFitted × Nat) :=
+  if nClusters < 2 then .error .valueError
+  else if nInit < 1 then .error .valueError
+  else if directed && nRow != nCol then .error .valueError
+  else
+    match routeInput nRow nCol nnz forceBipartite with
+    | .error e => .error e
+    | .ok (bip, _) => kcentersFitScores nClusters nInit maxIter bip nRow nCol pos chooseOf scores idxMax
 
 end SkNet.Clustering
